@@ -80,3 +80,22 @@ package notify
 //@   loop 2 invariant !ret("Integration).SendResolved") ==> (forall i int :: 0 <= i && i < len(sent) ==> sent[i] != nil && !resolvedAtN(sent[i], first("time.Now")))
 //@   loop 2 invariant !ret("Integration).SendResolved") ==> called("time.Now") || len(sent) == 0
 //@   noeffect Integration).Notify RecordEvent Integration).SendResolved Integration).String
+
+// ---- C20: text truncation. (That a truncated string ends on a code-point boundary is a property of the string
+// contents, which are uninterpreted here; what is proved is the size bound, the flag and - first of all - that the
+// functions do not panic.)
+//@ func TruncateInRunes
+//@   props C20
+//@   requires n >= 0
+//@   ensures [fits] nrunes(result0) <= n || (nrunes(s) <= n)
+//@   ensures [unchanged-if-fits] nrunes(s) <= n ==> result0 == s && !result1
+//@   ensures [flag] nrunes(s) > n ==> result1
+//@ func TruncateInBytes
+//@   props C20
+//@   requires n >= 0
+//@   ensures [fits] len(result0) <= n
+//@   ensures [unchanged-if-fits] len(s) <= n ==> result0 == s && !result1
+//@   ensures [flag] len(s) > n ==> result1
+//@   after call strings.Repeat assume len(res0) == n
+//@   loop 1 invariant 0 <= len(truncatedRunes) && len(truncatedRunes) <= len(r) && base(truncatedRunes) == base(r)
+//@   noeffect strings.Repeat
